@@ -1,3 +1,4 @@
+import Model.Errs
 /-! C13: executable models of `log/tracelog` (namespace `TL`) and `log/multilog` (namespace `ML`). Core-only.
 
 Byte strings are `List Nat`.  Leaf rendering (`%q`, RFC3339, `Value.String`, `LogValuer` resolution) and the timestamp
@@ -147,21 +148,30 @@ def render (σ : Store) (h : Handler) (r : Record) : Bytes := format h.names (σ
 
 /-! ### delivery -/
 
+/-- what kind of error value a failing sink hands back (tracelog returns it unchanged) -/
+inductive ErrKind where
+  | plain      -- a fresh `errors.New(..)`
+  | fresh      -- a fresh `*errs.Error`
+  | sentinel   -- one long-lived `*errs.Error` per sink: the same pointer on every call
+deriving DecidableEq
+
 /-- behaviour of the sink's `Write` -/
 inductive Mode where
-  | ok | fail | panic
+  | ok
+  | fail (k : ErrKind)
+  | panic
 deriving DecidableEq
 
 /-- what `Handle` does from the caller's point of view -/
 inductive Ret where
   | nil
-  | err (sink : Nat)
+  | err (sink : Nat) (k : ErrKind)
   | panic (sink : Nat)
 deriving DecidableEq
 
 /-- synchronous mode: exactly one `Write` of the whole record under the lock; the sink's error is returned -/
 def handleSync (mode : Mode) (sink : Nat) (line : Bytes) : List Bytes × Ret :=
-  ([line], match mode with | .ok => .nil | .fail => .err sink | .panic => .panic sink)
+  ([line], match mode with | .ok => .nil | .fail k => .err sink k | .panic => .panic sink)
 
 /-- buffered mode: `delivery chan []byte` of capacity `cap`, plus the item the delivery goroutine holds while it is
     inside `sink.Write` -/
@@ -255,6 +265,19 @@ def Result.isNil (r : Result) : Bool := r.errors.isEmpty
 
 /-- `Enabled`: some child is enabled -/
 def enabled (cs : List Child) (level : Int) : Bool := cs.any (·.enabled level)
+
+/-! ### the same accumulation on the heap of `*errs.Error` cells (`Model/Errs.lean`, the model of C11), where sharing
+    and in-place modification of a child's error value are expressible -/
+
+/-- the loop of `Handle` as far as errors go: `var result *errs.Error`, then `result = errs.Append(result, err)` with
+    the value each delivery returned (`nilIface` for a success), in order -/
+def accumulate (h : Errs.Heap) (rets : List Errs.Val) : Errs.Heap × Errs.Val :=
+  rets.foldl (fun acc v => ((Errs.append acc.1 acc.2 [v]).1, Errs.ptrVal (Errs.append acc.1 acc.2 [v]).2.1))
+    (h, .typedNil)
+
+/-- `return result.ErrorOrNil()` -/
+def returned (h : Errs.Heap) (rets : List Errs.Val) : Errs.Val :=
+  Errs.errorOrNil (accumulate h rets).1 (accumulate h rets).2
 
 /-- `type Handler struct { handlers []slog.Handler }` with tracelog children -/
 structure Handler where
